@@ -194,7 +194,11 @@ impl Check for CancelCheck {
         vec!["fault:cancel", "fault:block_error", "block_error_returned", "work_call_after_cancel", "graph_leg", "mt_leg"]
     }
     fn run(&self, src: &mut Src, ctx: &mut RunCtx) -> RunResult {
-        match src.below(4) {
+        match src.below(5) {
+            4 => {
+                ctx.count("mt_leg");
+                mtgraph_run(src, ctx, "C07", Some(C07Mode::FailCancel))
+            }
             0 => {
                 ctx.count("mt_leg");
                 mtgraph_run(src, ctx, "C07", Some(C07Mode::Cancel))
@@ -216,12 +220,12 @@ impl Check for CancelCheck {
 }
 
 /// Block wrapper that cancels the graph from inside its k-th call.
-struct CancelAt {
-    inner: Box<dyn Block + Send>,
-    token: Arc<Mutex<Option<rustradio::graph::CancellationToken>>>,
-    k: u64,
-    calls: u64,
-    probe: Arc<CancelProbe>,
+pub struct CancelAt {
+    pub inner: Box<dyn Block + Send>,
+    pub token: Arc<Mutex<Option<rustradio::graph::CancellationToken>>>,
+    pub k: u64,
+    pub calls: u64,
+    pub probe: Arc<CancelProbe>,
 }
 impl rustradio::block::BlockName for CancelAt {
     fn block_name(&self) -> &str {
@@ -339,24 +343,53 @@ fn graph_fail(src: &mut Src, ctx: &mut RunCtx) -> RunResult {
             order.swap(i, j);
         }
     }
-    ctx.ev(|| format!("C07 graph-fail recipe={} order {order:?}", recipe.describe()));
+    // Sometimes the graph is also cancelled: by the failing block itself right
+    // before it fails, or by another block at some call of its own.
+    let cancel_too: Option<(usize, u64)> = if src.chance(1, 3) {
+        Some(if src.coin() { (usize::MAX, k) } else { (src.below(n), src.range(1, 8) as u64) })
+    } else {
+        None
+    };
+    ctx.ev(|| format!("C07 graph-fail recipe={} order {order:?} cancel_too={cancel_too:?}", recipe.describe()));
     if ctx.sample.is_none() {
         ctx.sample = Some(json!({"runner": "Graph", "fault": format!("stage {pos} fails on call {k}"), "recipe": recipe.describe(), "order": order}));
     }
     let solo = Solo::new();
     let mut flag = None;
+    let mut cancelled = false;
     let r = solo.with(|| {
         catch(|| {
             rustradio::verif::set_stream_size(small);
             let mut built = build(&recipe);
             rustradio::verif::set_stream_size(0);
             flag = built.fail_flags.first().cloned();
-            let mut blocks: Vec<Option<Box<dyn Block + Send>>> = std::mem::take(&mut built.blocks).into_iter().map(Some).collect();
+            let token_slot = Arc::new(Mutex::new(None));
+            let probe = Arc::new(CancelProbe::default());
+            let mut blocks: Vec<Option<Box<dyn Block + Send>>> = std::mem::take(&mut built.blocks)
+                .into_iter()
+                .enumerate()
+                .map(|(i, b)| {
+                    let wrap = match cancel_too {
+                        Some((usize::MAX, _)) => b.block_name() == "FailAt",
+                        Some((w, _)) => w == i,
+                        None => false,
+                    };
+                    if wrap {
+                        let b: Box<dyn Block + Send> = Box::new(CancelAt { inner: b, token: token_slot.clone(), k: cancel_too.unwrap().1, calls: 0, probe: probe.clone() });
+                        Some(b)
+                    } else {
+                        Some(b)
+                    }
+                })
+                .collect();
             let mut g = Graph::new();
             for &i in &order {
                 g.add(blocks[i].take().unwrap());
             }
-            g.run().map_err(|e| e.to_string())
+            *token_slot.lock().unwrap() = Some(g.cancel_token());
+            let r = g.run().map_err(|e| e.to_string());
+            cancelled = probe.cancelled.load(Ordering::SeqCst);
+            r
         })
     });
     ctx.hash.add_bytes(format!("{}{order:?}", recipe.describe()).as_bytes());
@@ -365,6 +398,9 @@ fn graph_fail(src: &mut Src, ctx: &mut RunCtx) -> RunResult {
     if reached {
         ctx.nontrivial = true;
         ctx.count("fault:block_error");
+        if cancelled {
+            ctx.count("block_error_in_a_cancelled_graph");
+        }
     }
     match r {
         Err(p) => Err(Violation::new(format!("C07:graph-fail-panicked:{}", p.site()), format!("Graph::run() panicked instead of returning the block's error: {} at {}", p.msg, p.loc))),
